@@ -34,18 +34,19 @@ VALID_ARGS = [
     ["PY", []], ["PY", [T("a"), ["PY", [["N", 1], ["NONE"], ["TU", [T("b")]]]]]],
     ["L", [T("x"), ["N", 2]]], ["TU", [T("t"), ["N", 3]]],
     ["DUP", [T("d"), ["N", 6]]], ["NS", "-0.0"], ["N", 1.0], ["N", 0.0],
+    ["NT", [T("n1"), ["N", 8]]], ["LSUB", [T("ls"), ["NONE"]]], ["TLSUB", [T("tls"), ["N", 9]]], ["TS", "subtext"],
 ]
 INVALID_ARGS = [
     ["OBJ"], ["DICT"], ["SET"], ["BYTES"],
     ["PY", [T("ok"), ["OBJ"]]], ["PY", [T("ok"), ["PY", [T("k2"), ["TU", [["OBJ"]]]]]]],
-    ["TU", [["DICT"], T("late")]],
+    ["TU", [["DICT"], T("late")]], ["FRAC"], ["DEC"], ["PY", [T("ok"), ["FRAC"]]],
 ]
 RED_VALID = [T("s"), ["N", 1], ["NONE"], H("<b>"), I([T("k")]),
              ["PY", [T("a"), ["PY", [["N", 1], ["NONE"], ["TU", [T("b")]]]]]],
              ["L", [T("x"), ["N", 2]]]]
 RED_INVALID = [["OBJ"], ["PY", [T("ok"), ["PY", [T("k2"), ["TU", [["OBJ"]]]]]]]]
 
-ITERABLE_KINDS = ("PY", "TU", "L", "GEN")
+ITERABLE_KINDS = ("PY", "TU", "L", "GEN", "NT", "LSUB", "TLSUB")
 
 
 def mk_ops(valid, invalid, full):
@@ -433,6 +434,10 @@ def same_list(real, model):
     for r, m in zip(real, model):
         if type(m) is str:
             if type(r) is not str or r != m:
+                return False
+        elif isinstance(m, str) and not isinstance(m, GenElem):
+            # an instance of a str subclass supplied by the caller: kept as the same object
+            if r is not m:
                 return False
         elif isinstance(m, GenElem):
             if type(r) is not type(m.v) or (isinstance(r, str) and r != m.v):
